@@ -4,7 +4,7 @@ import lib
 from lib import run_tlc, workdir
 
 HERE = os.path.dirname(os.path.dirname(os.path.dirname(os.path.abspath(__file__))))
-TAG = {"Oa": 2000, "Ob": 3000, "GenU8": 4000, "GenU64": 5000}
+TAG = {"Oa": 2000, "OB": 3000, "GenU8": 4000, "GenU64": 5000}
 
 
 def run(c, tier):
@@ -30,6 +30,14 @@ def run(c, tier):
     td = os.path.join(lib.HARNESS, "target", "castmatrix")
     pb = subprocess.run(["cargo", "build", "--offline", "--target-dir", td], cwd=crate, capture_output=True, text=True, env=lib.cargo_env())
     if pb.returncode != 0:
+        import re
+        missing = sorted(set(re.findall(r"no method named `((?:check|as_ref|as_mut|cast|into)_impl_\w+)`", pb.stderr)))
+        if missing:
+            # the cast macros name a conversion function that the group never generated: the request cannot even be written
+            # down, although every requested trait may be enabled
+            c.violation("the cast macros expand to conversion functions the group does not have (%s): requests for these trait sets cannot be expressed" % ", ".join(missing[:6]),
+                        {"missing": missing})
+            return {"cast_matrix": "does not compile: %d conversion functions named by the macros do not exist" % len(missing)}
         raise lib.ToolError("cast-matrix crate does not compile against /repo:\n" + pb.stderr[-2500:])
     pr = subprocess.run([os.path.join(td, "debug", "castmatrix")], capture_output=True, text=True, timeout=600)
     if pr.returncode != 0:
